@@ -197,6 +197,9 @@ class Decimal(Form):
 
 class Quoted(Form):
     def describe(self):
+        if getattr(self, "shape", None):
+            return "quoted string, quote %r, content %r with W = every white-space character, ? = every character" % (
+                self.q, self.shape)
         return "quoted string, quote %r, %d symbolic character(s)" % (self.q, self.n)
 
     @property
@@ -204,6 +207,20 @@ class Quoted(Form):
         return {"PVL": "latin", "ISIS": "latin", "ODL": "ascii", "PDS3": "ascii", "Omni": "omni"}[self.dialect]
 
     def inputs(self, ctx):
+        shape = getattr(self, "shape", None)
+        if shape:
+            # W = any of the six white-space characters, ? = any character, the rest literal
+            cs = []
+            for i, ch in enumerate(shape):
+                if ch == "W":
+                    cs.append(ctx.fresh_char("w%d" % i, ((9, 13), (32, 32))))
+                elif ch == "?":
+                    c = ctx.fresh_char("c%d" % i)
+                    ctx.assume(c.z != ord(self.q))
+                    cs.append(c)
+                else:
+                    cs.append(ch)
+            return {"content": SymStr(cs)}
         s = ctx.fresh_str(self.n, "c")
         for c in s.cs:
             ctx.assume(c.z != ord(self.q))
@@ -334,6 +351,10 @@ def obligations(tier):
             for n in ((0, 1, 2) if quick else (0, 1, 2, 3)):
                 for c in (("plain", "seq", "comment") if quick else ctxs):
                     obs.append(Quoted(dialect=d, q=q, n=n, ctx=c))
+        # folding and dash continuation inside quoted text (lines ending in LF, CR-LF, with indentation)
+        for sh in ("a-WWb", "aW-Wb", "a WW b", "a-W-Wb") + (() if quick else ("a-WWWb", "aWW-WWb", "-WWb", "a-WW", "a?WW?")):
+            for c in (("plain", "seq") if quick else ("plain", "seq", "ingroup")):
+                obs.append(Quoted(dialect=d, q='"', n=0, ctx=c, shape=sh))
         for n in ((1, 3) if quick else (1, 2, 3, 4)):
             for c in (("plain", "seq", "tight", "ingroup") if quick else ctxs):
                 obs.append(Unquoted(dialect=d, n=n, ctx=c))
